@@ -1,5 +1,6 @@
 //! Solver for systems of equations expressed as sets of [Function] objects
 #![warn(missing_docs)]
+#![allow(unexpected_cfgs)] // cfg(fidget_verif) verification hooks
 use fidget_core::{
     eval::{BulkEvaluator, Function, Tape, TracingEvaluator},
     types::Grad,
@@ -291,6 +292,41 @@ pub fn solve<F: Function>(
         .map(|(v, i)| (v, cur[i]))
         .collect();
     Ok(out)
+}
+
+/// Verification hook: one Jacobian evaluation at the starting point.
+///
+/// Returns the free variables with their gradient index, the Jacobian rows (one per
+/// equation), the residuals, and the gradient input array as left by the last equation
+/// (`[v, dx, dy, dz]` per sample, one row per tape variable index).
+#[cfg(fidget_verif)]
+#[allow(clippy::type_complexity)]
+pub fn verif_jacobian<F: Function>(
+    eqs: &[F],
+    vars: &HashMap<Var, Parameter>,
+) -> (Vec<(Var, usize)>, Vec<Vec<f32>>, Vec<f32>, Vec<Vec<[f32; 4]>>) {
+    let mut solver = Solver::new(eqs, vars);
+    let mut cur = vec![0f32; solver.grad_index.len()];
+    for (v, i) in &solver.grad_index {
+        if let Parameter::Free(f) = vars[v] {
+            cur[*i] = f;
+        }
+    }
+    let mut jacobian = nalgebra::DMatrix::repeat(eqs.len(), cur.len(), 0f32);
+    let mut result = nalgebra::DVector::repeat(eqs.len(), 0f32);
+    if !cur.is_empty() {
+        solver.get_jacobian(&cur, &mut jacobian, &mut result);
+    }
+    let index = solver.grad_index.iter().map(|(v, i)| (*v, *i)).collect();
+    let rows = (0..eqs.len())
+        .map(|r| (0..cur.len()).map(|c| jacobian[(r, c)]).collect())
+        .collect();
+    let grads = solver
+        .input_grad
+        .iter()
+        .map(|row| row.iter().map(|g| [g.v, g.dx, g.dy, g.dz]).collect())
+        .collect();
+    (index, rows, result.iter().cloned().collect(), grads)
 }
 
 #[cfg(test)]
